@@ -333,6 +333,12 @@ pub fn gen_cfg_for(prop: &str, rng: &mut Rng, thorough: bool) -> GenCfg {
             cfg.p_multi_places = 0.5;
             cfg.p_time_windows = 0.9;
             cfg.p_open_end = 0.4;
+            // the reported tag must be the one of the place used: half of the problems tag the places of multi-place tasks
+            // sparsely (an untagged place in front of a tagged one), which no reader of the solution needs to be dense
+            if rng.chance(0.5) {
+                cfg.always_tag = false;
+                cfg.p_place_tag = 0.5;
+            }
         }
         _ => {}
     }
